@@ -42,6 +42,10 @@ def run(ctx):
     c19_supports(ctx)
     c01_mempool.run(ctx, rule="C19.3")
     c19_4(ctx)
+    # the lineage / puzzle-hash gates compare against hashes recomputed by curry_and_treehash from the values actually curried
+    # into the puzzle (mod hash, launcher id and launcher puzzle hash of the decoded singleton struct): shared with C17.4
+    from . import c17
+    c17.c17_4(ctx, R="C19.1")
 
 
 def c19_1_2(ctx):
